@@ -23,7 +23,7 @@
 (* (DESIGN.md 4.2, C07).  Time is counted in ticks (5 s); tick 0 = the zero *)
 (* time.                                                                   *)
 (***************************************************************************)
-EXTENDS Integers, Sequences, FiniteSets, TLC, Util, Json, IOUtils
+EXTENDS Integers, Sequences, FiniteSets, TLC, Util, Json, IOUtils, ServiceClauses
 
 CONSTANTS
   RecordHist,   \* BOOLEAN: keep the event history (generator configs)
@@ -383,7 +383,7 @@ DoRespond(s, e) ==
     ELSE IF e.req \notin s.active THEN FailW(s, "not_active")
     ELSE
       LET c == s.ctx[r.ctx]
-          tax == (r.fee * s.params.taxNum) \div s.params.taxDen
+          tax == MulFloorW(r.fee, s.params.taxNum, s.params.taxDen)
           net == Coin(r.fdenom, r.fee - tax)
           p == r.provider
           o == Get(s.owner, p, "")
@@ -460,7 +460,7 @@ ExpireReq(s, rid) ==
       s1 == IF ~HasBind(s, c.svc, p) THEN s
             ELSE
               LET b == s.bind[c.svc][p]
-                  sl == (b.deposit * s.params.slashNum) \div s.params.slashDen
+                  sl == MulFloorW(b.deposit, s.params.slashNum, s.params.slashDen)
                   dep == b.deposit - sl
                   off == b.available /\ (MinDepErr(s, b) \/ dep < MinDep(s, BasePrice(s, b)))
               IN IF BalOf(s, DEP) < sl THEN s
@@ -737,15 +737,17 @@ Liabilities(t, d) ==
 
 (* C07: deposit escrow = sum of the recorded deposits (deposits are in the base
    denom; the escrow holds nothing else) *)
+(* the arithmetic of the C07 clauses is stated once, in ServiceClauses.tla
+   (shared with the big-number tier) *)
 C07_DepositEscrow(t) ==
-  /\ BalOf(t, DEP) = DepositSum(t)
+  /\ EscrowW(BalOf(t, DEP), DepositSum(t))
   /\ \A d \in DenomsOf(t) \ {D} : BalD(t, DEP, d) = 0
 
 (* C07: request escrow = fees of the requests awaiting a response + earned fees *)
-C07_RequestEscrow(t) == \A d \in DenomsOf(t) : BalD(t, REQ, d) = Liabilities(t, d)
+C07_RequestEscrow(t) == \A d \in DenomsOf(t) : EscrowW(BalD(t, REQ, d), Liabilities(t, d))
 (* ... modulo finding F4: exactly the recorded discount overcharges are stuck *)
 C07_RequestEscrow_ModF4(t, g) ==
-  \A d \in DenomsOf(t) : BalD(t, REQ, d) = Liabilities(t, d) + Amt(g.f4, d)
+  \A d \in DenomsOf(t) : EscrowW(BalD(t, REQ, d), Liabilities(t, d) + Amt(g.f4, d))
 
 (* C07: provider-side and owner-side tallies agree *)
 C07_OwnerTally(t) ==
@@ -770,11 +772,11 @@ Overcharge(s, t, a, d) ==
 C07_Charge(s, e, t) ==
   (e.name = "EndBlock") =>
     \A a \in UsersOf(t) : \A d \in DenomsOf(t) :
-      DeltaD(s, t, a, d) = Refunds(s, e, t, a, d) - Charges(s, t, a, d)
+      ChargeW(DeltaD(s, t, a, d), Refunds(s, e, t, a, d), Charges(s, t, a, d))
 C07_Charge_ModF4(s, e, t) ==
   (e.name = "EndBlock") =>
     \A a \in UsersOf(t) : \A d \in DenomsOf(t) :
-      DeltaD(s, t, a, d) = Refunds(s, e, t, a, d) - Charges(s, t, a, d) - Overcharge(s, t, a, d)
+      ChargeF4W(DeltaD(s, t, a, d), Refunds(s, e, t, a, d), Charges(s, t, a, d), Overcharge(s, t, a, d))
 
 (* C07: an answered request's fee goes to the provider minus the tax, the tax
    to the fee pool *)
@@ -782,18 +784,18 @@ C07_Answer(s, e, t) ==
   (e.name = "Respond" /\ e.ok /\ e.req \in DOMAIN s.req) =>
     LET r == s.req[e.req]
         fd == r.fdenom
-        tax == (r.fee * s.params.taxNum) \div s.params.taxDen
-    IN /\ EarnedOf(t, r.provider, fd) - EarnedOf(s, r.provider, fd) = r.fee - tax
+        tax == MulFloorW(r.fee, s.params.taxNum, s.params.taxDen)
+    IN /\ TaxW(r.fee, s.params.taxNum, s.params.taxDen, tax,
+               EarnedOf(t, r.provider, fd) - EarnedOf(s, r.provider, fd))
        /\ \A p \in DOMAIN s.earned \cup DOMAIN t.earned : \A d \in DenomsOf(t) :
             (p # r.provider \/ d # fd) => EarnedOf(t, p, d) = EarnedOf(s, p, d)
-       /\ DeltaD(s, t, FEEP, fd) = tax
-       /\ DeltaD(s, t, REQ, fd) = 0 - tax
+       /\ AnswerMoveW(tax, DeltaD(s, t, FEEP, fd), DeltaD(s, t, REQ, fd))
        /\ OthersSame(s, t, {<<FEEP, fd>>, <<REQ, fd>>})
 
 (* C07: expiry slashes floor(deposit * fraction) per expired request from the
    deposit escrow to the fee pool (refunds are in C07_Charge) *)
 RECURSIVE SlashN(_, _, _, _)
-SlashN(d, k, sn, sd) == IF k = 0 THEN d ELSE SlashN(d - (d * sn) \div sd, k - 1, sn, sd)
+SlashN(d, k, sn, sd) == IF k = 0 THEN d ELSE SlashN(SlashOnceW(d, sn, sd), k - 1, sn, sd)
 
 C07_Expire(s, e, t) ==
   (e.name = "EndBlock") =>
@@ -808,8 +810,7 @@ C07_Expire(s, e, t) ==
             /\ HasBind(t, b[1], b[2])
             /\ t.bind[b[1]][b[2]].deposit =
                  SlashN(s.bind[b[1]][b[2]].deposit, hit(b), s.params.slashNum, s.params.slashDen)
-       /\ Delta(s, t, DEP) = 0 - slashed
-       /\ Delta(s, t, FEEP) = slashed
+       /\ SlashMoveW(slashed, Delta(s, t, DEP), Delta(s, t, FEEP))
        /\ \A d \in DenomsOf(t) \ {D} : DeltaD(s, t, DEP, d) = 0 /\ DeltaD(s, t, FEEP, d) = 0
 
 (* C07: a withdrawal pays exactly the deleted tallies to the withdraw address *)
@@ -822,8 +823,7 @@ C07_Withdraw(s, e, t) ==
          EarnedOf(t, p, d) = EarnedOf(s, p, d)
     /\ \A d \in DenomsOf(t) :
          LET paid == EarnedOf(s, e.prov, d) IN
-         /\ OwnerEarnedOf(t, e.who, d) = OwnerEarnedOf(s, e.who, d) - paid
-         /\ DeltaD(s, t, REQ, d) = 0 - paid
+         /\ WithdrawW(paid, OwnerEarnedOf(s, e.who, d), OwnerEarnedOf(t, e.who, d), DeltaD(s, t, REQ, d))
          /\ (to # REQ) => DeltaD(s, t, to, d) = paid
     /\ OthersSame(s, t, {<<REQ, d>> : d \in DenomsOf(t)} \cup {<<to, d>> : d \in DenomsOf(t)})
 
@@ -841,12 +841,10 @@ C07_Frame(s, e, t) ==
          = SumOver([a \in DOMAIN s.bal |-> BalD(s, a, d)], DOMAIN s.bal)
   /\ (e.name # "EndBlock") => \A b \in Bindings(t) \ {me} : dep(t, b) = dep(s, b)
   /\ (e.name \in {"Bind", "UpdateBinding", "Enable"} /\ e.ok) =>
-       /\ dep(t, me) = dep(s, me) + add
-       /\ Delta(s, t, e.who) = 0 - add /\ Delta(s, t, DEP) = add
+       /\ DepositMoveW(add, dep(s, me), dep(t, me), Delta(s, t, e.who), Delta(s, t, DEP))
        /\ OthersSame(s, t, {<<e.who, D>>, <<DEP, D>>})
   /\ (e.name = "RefundDeposit" /\ e.ok) =>
-       /\ dep(t, me) = 0
-       /\ Delta(s, t, e.who) = dep(s, me) /\ Delta(s, t, DEP) = 0 - dep(s, me)
+       /\ RefundDepositW(dep(s, me), dep(t, me), Delta(s, t, e.who), Delta(s, t, DEP))
        /\ OthersSame(s, t, {<<e.who, D>>, <<DEP, D>>})
   /\ (e.name \notin {"Bind", "UpdateBinding", "Enable", "RefundDeposit", "Respond", "Withdraw",
                       "ModWithdrawAll", "EndBlock"}) =>
